@@ -233,6 +233,17 @@ Theorem law_holds_on_every_history :
 Proof. exact law_on_every_history. Qed.
 Print Assumptions law_holds_on_every_history.
 
+(* Union stores the conversion by the FIRST alternative in declaration order that accepts: the stored value is the
+   documented conversion by an alternative that no certainly-accepting alternative (accepts_exact: a value of exactly that
+   alternative's type; for PrefixList a member or a uniquely completable string) precedes. This is part of clause 4 of the
+   law (conv_ok1), proved of every model history by law_holds_on_every_history. (Seeded C01-w3 starts the search at the
+   alternative that accepted the previous value.) *)
+Theorem union_stores_first_accepting :
+  forall E c s ds v w, wf_desc (DUnion ds) = true -> bool_final E = true ->
+    validate_s E c s (DUnion ds) v = Accept w -> conv_ok1 E (DUnion ds) v w = true.
+Proof. intros E c s ds v w. exact (vs_conv1 E c s (DUnion ds) v w). Qed.
+Print Assumptions union_stores_first_accepting.
+
 (* READ FIRST, THEN ASSIGN. A read stores the default value unvalidated (Model.read_attr); what is stored is therefore
    no licence: an assignment the validator rejects is rejected in EVERY dictionary — in particular one that already holds
    that very value — and changes nothing. (Seeded C01-v2 skips validation when the assigned object is the stored one.) *)
@@ -368,3 +379,18 @@ Proof.
   - constructor; [|constructor]. intros d dflt H. vm_compute in H. inversion H; subst. split; reflexivity.
   - intros H. destruct (H _ _ eq_refl) as [_ Hd]. vm_compute in Hd. discriminate.
 Qed.
+
+(* Union(Int, Float) <- 2 stores the int 2 whatever was assigned before; 2.0 is a documented conversion of SOME
+   alternative (conv_ok) but not of the first accepting one (conv_ok1) *)
+Example union_first_nonvacuous :
+  let d := DUnion [DInt; DFloat] in
+  let c := [(0, (d, PInt 0))] in
+  map (fun p => (snd p, get (fst p) 0)) (run E0 c [] [(Attr, [(0, PFloat (FFin false 500))]); (Attr, [(0, PInt 2)])])
+  = [(Ok, Some (PFloat (FFin false 500))); (Ok, Some (PInt 2))] /\
+  conv_ok E0 d (PInt 2) (PFloat (FFin false 2000)) = true /\ conv_ok1 E0 d (PInt 2) (PFloat (FFin false 2000)) = false /\
+  conv_ok1 E0 d (PInt 2) (PInt 2) = true /\
+  conv_ok1 E0 (DUnion [DBool; DInt]) (PBool true) (PInt 1) = false /\
+  conv_ok1 E0 (DUnion [DPrefixList [[121; 101; 115]; [110; 111]]; DStr]) (PStr [121]) (PStr [121]) = false /\
+  conv_ok1 E0 (DUnion [DPrefixList [[121; 101; 115]; [110; 111]]; DStr]) (PStr [121]) (PStr [121; 101; 115]) = true /\
+  conv_ok1 E0 (DUnion [DPrefixList [[121; 101; 115]; [110; 111]]; DStr]) (PStr [122]) (PStr [122]) = true.
+Proof. vm_compute. repeat split. Qed.
